@@ -64,6 +64,15 @@ def check_law(case):
             kind = "generic"
         cls.append("nt:pair-" + kind if kind != "generic" else "pair-generic")
         want = ec.add(A, B)
+        if kind in ("generic", "doubling") and (a + b) % 2:
+            # history: ECDSA divides by the same integers modulo the group order (ecmath.sign/verify call the shared
+            # helpers with p=n); the slope's denominator is first inverted modulo n, then the addition is made
+            dens = [(B[0] - A[0]) % P, (A[0] - B[0]) % P, 2 * A[1] % P, (P - 2 * A[1]) % P]
+            for d in dens:
+                if 0 < d < N:
+                    attempt(em.div_mod_p, 1, d, N)
+                    attempt(em.mul_mod_p, 1, d, N)
+            cls.append("nt:after-mod-n-division-by-the-slope-denominator")
         got = attempt(em.point_add, A, B)
         f.expect(not raised(got) and got == want, f"add/ne-reference/{kind}", repr(got)[:120])
         if not raised(got) and got is not None:
@@ -127,6 +136,12 @@ def check_small(case):
     f = Fails()
     cls = ["nt:small-curve-p%d" % p]
     mode = case["mode"]
+    if case.get("after") == "ecdsa":
+        # history: the module's own ECDSA over the same small curve first (every s and several r, digests): it works
+        # modulo the group order through the helpers the group law uses modulo the field prime
+        for s_ in range(1, n):
+            attempt(em.verify, 1 + s_ % (n - 1), s_, g, s_ * 7 + 1)
+        cls.append("nt:small-after-ecdsa-verify")
     if mode == "pairs":
         for B in elems:
             want = ec.add(A, B, p)
@@ -163,6 +178,9 @@ def enum_small(tier):
         for i in range(c["n"]):  # n-1 points + identity
             yield {"curve": ci, "i": i, "mode": "pairs"}
             yield {"curve": ci, "i": i, "mode": "scalars"}
+            if i % 4 == 1:
+                yield {"curve": ci, "i": i, "mode": "pairs", "after": "ecdsa"}
+                yield {"curve": ci, "i": i, "mode": "scalars", "after": "ecdsa"}
     for i in range(curves[0]["n"]):
         yield {"curve": 0, "i": i, "mode": "assoc"}
 
@@ -308,8 +326,9 @@ def enum_keygen(tier):
 def targets(tier):
     return [
         Target("law-secp", check_law, strategy=lambda tier: law_cases(), budget={"quick": 640, "thorough": 10000},
-               required=["nt:pair-identity", "nt:pair-doubling", "nt:pair-inverse", "nt:pair-same-or-negated-y-different-x", "nt:scalar-boundary", "nt:identity-distrib", "nt:identity-assoc", "nt:off-curve", "nt:mul-identity-operand"]),
-        Target("law-small", check_small, enumerate_=enum_small, exhaustive=True),
+               required=["nt:pair-identity", "nt:pair-doubling", "nt:pair-inverse", "nt:pair-same-or-negated-y-different-x", "nt:scalar-boundary", "nt:identity-distrib", "nt:identity-assoc", "nt:off-curve", "nt:mul-identity-operand",
+                         "nt:after-mod-n-division-by-the-slope-denominator"]),
+        Target("law-small", check_small, enumerate_=enum_small, exhaustive=True, required=["nt:small-after-ecdsa-verify"]),
         Target("privkey", check_privkey, strategy=lambda tier: privkey_cases(), budget={"quick": 1500, "thorough": 30000},
                required=["nt:invalid-len", "nt:invalid-range", "nt:valid-boundary-or-leading-zero"]),
         Target("keygen", check_keygen, enumerate_=enum_keygen, required=["nt:draw-zero || rng-not-consulted", "nt:draw-max || rng-not-consulted", "nt:draw-one || rng-not-consulted"], shards=2),
